@@ -304,6 +304,14 @@ class BehavioralRTLIRToVVisitorL1( bir.BehavioralRTLIRNodeVisitor ):
   # visit_ZeroExt
   #-----------------------------------------------------------------------
 
+  def _same_width_operand( s, node, value ):
+    # zext / sext / trunc to the width the operand already has emit the
+    # operand itself: a compound operand keeps its brackets, otherwise
+    # zext( a + b, 8 ) * c would come out as a + b * c
+    if isinstance( node.value, ( bir.IfExp, bir.UnaryOp, bir.BinOp, bir.Compare ) ):
+      return f"( {value} )"
+    return value
+
   def visit_ZeroExt( s, node ):
     node.value._top_expr = True
 
@@ -312,7 +320,7 @@ class BehavioralRTLIRToVVisitorL1( bir.BehavioralRTLIRNodeVisitor ):
     current_nbits = int(node.value.Type.get_dtype().get_length())
     padded_nbits = target_nbits - current_nbits
     if padded_nbits == 0:
-      return value
+      return s._same_width_operand( node, value )
     else:
       return f"{{ {{ {padded_nbits} {{ 1'b0 }} }}, {value} }}"
 
@@ -333,7 +341,7 @@ class BehavioralRTLIRToVVisitorL1( bir.BehavioralRTLIRNodeVisitor ):
     padded_nbits = target_nbits - current_nbits
 
     if padded_nbits == 0:
-      return value
+      return s._same_width_operand( node, value )
 
     template = "{{ {{ {padded_nbits} {{ {value}[{last_bit}] }} }}, {value} }}"
     one_bit_template = "{{ {{ {padded_nbits} {{ {_value} }} }}, {value} }}"
@@ -405,7 +413,7 @@ class BehavioralRTLIRToVVisitorL1( bir.BehavioralRTLIRNodeVisitor ):
     if isinstance(dtype, rdt.Vector) and dtype.get_length() > nbits:
       return f"{nbits}'({value})"
     else:
-      return value
+      return s._same_width_operand( node, value )
 
   #-----------------------------------------------------------------------
   # visit_Reduce
